@@ -161,37 +161,11 @@ def run_case(args):
     # assertions as written have a model is asked of z3 (untrusted) and every proposed model is validated by the Lean evaluator
     if "unsat" in res["answers"] and not res["problems"]:
         try:
-            import smtlib, c13
-            sxs = smtlib.parse_sexps(case["script"])
-            sc = smtlib.Script(case["script"])
-            al, extra = modelcheck.align_outputs(sc, out)
-            if al is not None:
-                rejected = {i for i, name, o in al if modelcheck.is_error(o)}
-                answer_of = {i: smtlib.sym(o) for i, name, o in al if name == "check-sat" and o is not None and not isinstance(o, list)}
-                decls, stack, logic_line = [], [[]], None
-                for i, sx in enumerate(sxs):
-                    name = smtlib.sym(sx[0])
-                    if name == "set-logic":
-                        logic_line = smtlib.unparse(sx)
-                    if i in rejected and name != "check-sat":
-                        continue
-                    if name in ("declare-fun", "declare-const", "declare-sort"):
-                        decls.append(smtlib.unparse(sx))
-                    elif name == "assert":
-                        stack[-1].append(smtlib.unparse(sx[1]))
-                    elif name == "push":
-                        stack += [[] for _ in range(int(smtlib.sym(sx[1])) if len(sx) > 1 else 1)]
-                    elif name == "pop":
-                        for _ in range(int(smtlib.sym(sx[1])) if len(sx) > 1 else 1):
-                            if len(stack) > 1:
-                                stack.pop()
-                    elif name == "check-sat" and answer_of.get(i) == "unsat":
-                        texts = [t for fr in stack for t in fr]
-                        if texts and c13.z3_validated_model(decls, logic_line, texts) is True:
-                            res["problems"].append({"what": "an unsat answer although the accepted assertions have a model (proposed by z3, validated by "
-                                                            "the Lean evaluator): the front end built other terms than the ones written",
-                                                    "kind": "unsat", "assertions": texts})
-                            break
+            import attack
+            for pr in attack.models_against_unsat(case["script"], out):
+                pr["kind"] = "unsat"
+                pr["what"] += ": the front end built other terms than the ones written"
+                res["problems"].append(pr)
         except Exception as e:
             res["machinery_note"] = repr(e)
     return res
